@@ -3342,15 +3342,47 @@ func (r *Resolver) clearAdditional(req, resp *dns.Msg, extra ...bool) *dns.Msg {
 	shouldClearExtra := len(extra) == 0 || !extra[0]
 
 	if shouldClearExtra {
+		// What the authority said about the client subnet it was sent is not
+		// ours to drop: the SCOPE it declares is what tells the cache that
+		// the answer is for that network only. Handing up the request's own
+		// option (scope 0, "valid everywhere") filed every tailored answer
+		// under the shared key.
+		declared := forwardedSubnet(resp)
+
 		resp.Extra = []dns.RR{}
 
 		// Preserve EDNS0 if present
 		if opt := req.IsEdns0(); opt != nil {
+			if sent := forwardedSubnet(req); sent != nil && declared != nil {
+				opt = dns.Copy(opt).(*dns.OPT)
+				for i, option := range opt.Option {
+					if _, ok := option.(*dns.EDNS0_SUBNET); ok {
+						opt.Option[i] = declared
+					}
+				}
+			}
 			resp.Extra = append(resp.Extra, opt)
 		}
 	}
 
 	return resp
+}
+
+// forwardedSubnet returns the client-subnet option of m's OPT, if any.
+func forwardedSubnet(m *dns.Msg) *dns.EDNS0_SUBNET {
+	if m == nil {
+		return nil
+	}
+	opt := m.IsEdns0()
+	if opt == nil {
+		return nil
+	}
+	for _, option := range opt.Option {
+		if subnet, ok := option.(*dns.EDNS0_SUBNET); ok {
+			return subnet
+		}
+	}
+	return nil
 }
 
 func (r *Resolver) equalServers(s1, s2 *authority.Servers) bool {
